@@ -1,9 +1,11 @@
 CONSTANT W = 2
 CONSTANT PMax = 3
 CONSTANT FreshId <- FreshMC
+CONSTANT Gen = FALSE
 CONSTANT MaxItems = 4
 CONSTANT MaxDepth = 2
 SPECIFICATION Spec
+VIEW View
 INVARIANT P_C19
 INVARIANT P_C04
 INVARIANT P_C15
